@@ -453,6 +453,14 @@ fn witnesses() -> Vec<(&'static str, R, R)> {
         ("lt_trans_date_b", Date(2020, 1, 2), Dt("2020-01-03 00:00:00 +1400")),
         ("lt_trans_date_c", Dt("2020-01-01 23:00:00 -1200"), Dt("2020-01-03 00:00:00 +1400")),
         ("perm_cmp_old", ab(), ab()),
+        // floats one unit in the last place apart are different numbers: unequal and ordered
+        ("adjacent_sum", f(0.1 + 0.2), f(0.3)),
+        ("adjacent_one", f(1.0), f(1.0 + f64::EPSILON)),
+        ("adjacent_big", f(435.0), f(435.00000000000006)),
+        ("adjacent_neg", f(-3.3), f(-3.3000000000000003)),
+        ("adjacent_tiny", f(1e-300), f(1.0000000000000002e-300)),
+        ("adjacent_in_array", Arr(vec![f(0.1 + 0.2)]), Arr(vec![f(0.3)])),
+        ("adjacent_in_object", Obj(vec![("k", f(0.1 + 0.2))]), Obj(vec![("k", f(0.3))])),
     ]
 }
 
